@@ -481,3 +481,14 @@ example : firstMalformed {} [[0x2D, 0x20, 0x61], [0x20, 0x20, 0x2D, 0x20, 0x62],
 example : firstMalformed {} [[0x20, 0x20, 0x2D, 0x20, 0x62]] = some ([0x20, 0x20, 0x2D, 0x20, 0x62], .orphan) := by decide
 
 end Gtree
+
+namespace Gtree
+/-- Tie to the source: the builder attaches an item to the nearest open node for which `Node.isDirectlyUnder` holds
+    (node.go, translated on this run): hierarchy exactly one more — the test behind "nested more than one level
+    deeper than the item before it" (`C02_jump_rejected`). -/
+theorem C02_directly_under_is_the_source (h h' : Nat) (t t' : T) :
+    Src.Node.isDirectlyUnder (toNode h t) (some (toNode h' t')) = (h == h' + 1) ∧
+    Src.Node.isDirectlyUnder (toNode h t) none = false :=
+  isDirectlyUnder_src h h' t t'
+end Gtree
+
